@@ -167,6 +167,18 @@ pub fn copy_rgba_data(xs: &mut Xstate, buf: &mut Vec<u8>) -> Xresult1<(usize, us
     Ok((d2.width, d2.height))
 }
 
+/// Verification hook: the whole abstract state of the canvas (size, current colour, palette, pixels), by value.
+#[cfg(feature = "verif_hooks")]
+pub fn verif_canvas(xs: &mut Xstate) -> Option<String> {
+    let any = xs.get_var(xs.d2).ok()?.to_any().ok()?;
+    let p = any.try_borrow().ok()?;
+    let d2 = p.downcast_ref::<D2Context>()?;
+    Some(format!(
+        "w={} h={} color={} pal={:?} data={:?}",
+        d2.width, d2.height, d2.color, d2.pal, d2.data
+    ))
+}
+
 #[cfg(test)]
 mod tests {
     use super::*;
